@@ -1,4 +1,5 @@
 import MoneroModel.Spec.Leb128
+import MoneroModel.Types
 /-! Reference: the Monero consensus wire layout of transactions and blocks, "by the book" — written from Monero's
 `cryptonote_basic.h` (transaction_prefix, txin_gen = 0xff, txin_to_key = 0x02, txout_to_key = 0x02,
 txout_to_tagged_key = 0x03), `cryptonote_format_utils.cpp` and `ringct/rctTypes.h` (`rctSigBase::serialize_rctsig_base`,
@@ -101,6 +102,26 @@ def specTxId (H : B → B) (d : TxD) : Option B :=
   | .v1 _ => some (H (specTx d))
   | .v2 none => none   -- no RingCT type exists; not covered by the definition
   | .v2 (some r) => some (H (H (specPrefix d) ++ H (specBase r) ++ (match r with | .null => zeros32 | _ => H (specPrunable r))))
+
+/-! The tag bytes and the type-dependent layout choices of the format, as tables (cryptonote_basic.h `txin_v` / `txout_target_v`
+variant tags, tx_extra.h `TX_EXTRA_*`, rctTypes.h `RCTType*`), for comparison with the tables regenerated from /repo. -/
+def tagsTxIn : List (Nat × TxInV) := [(0xff, .Gen), (0x02, .ToKey)]
+def tagsTarget : List (Nat × TargetV) := [(0x02, .ToKey), (0x03, .ToTaggedKey)]
+def tagsExtra : List (Nat × SubFieldV) := [(0x00, .Padding), (0x01, .TxPublicKey), (0x02, .Nonce), (0x03, .MergeMining), (0x04, .AdditionalPublickKey), (0xde, .MysteriousMinerGate)]
+def tagsRct : List (Nat × RctTy) := [(0, .Null), (1, .Full), (2, .Simple), (3, .Bulletproof), (4, .Bulletproof2), (5, .Clsag), (6, .BulletproofPlus)]
+/-- types whose range proofs are Bulletproofs / Bulletproofs+ -/
+def usesBulletproof : List RctTy := [.Bulletproof, .Bulletproof2, .Clsag]
+def usesBulletproofPlus : List RctTy := [.BulletproofPlus]
+/-- types whose Bulletproof count is a varint (type 3 writes a u32) -/
+def bpCountIsVarint : List RctTy := [.Bulletproof2, .Clsag]
+/-- types signed with CLSAG (the others with MLSAG) -/
+def usesClsag : List RctTy := [.Clsag, .BulletproofPlus]
+/-- types with one MLSAG per input of two columns (Full has a single MLSAG of inputs+1 columns) -/
+def mlsagPerInput : List RctTy := [.Simple, .Bulletproof, .Bulletproof2]
+/-- types whose pseudo outputs live in the prunable part (Simple keeps them in the base) -/
+def pseudoOutsInPrunable : List RctTy := [.Bulletproof, .Bulletproof2, .Clsag, .BulletproofPlus]
+/-- types with the compact 8-byte encrypted amount -/
+def compactEcdh : List RctTy := [.Bulletproof2, .Clsag, .BulletproofPlus]
 
 /-! Well-shapedness of a description: the lengths that the wire format leaves implicit are the ones the counts imply. -/
 def is32 (k : B) : Prop := k.length = 32
